@@ -15,7 +15,7 @@ from .. import PropertyViolation
 ID = "C20"
 SHARDS = {"quick": 8, "thorough": 16}
 RULE = ("dimension 2-60; real orthogonal / complex unitary bases (QR of a seeded Gaussian), drawn permutation, unit phases (+-1 "
-        "or complex for a real base, 30 % of them within 0.02 rad of +-i), perturbation of norm <= 0.05 re-normalised (matching overlap >= 0.9, others <= 0.06); masses 1-250, row scales "
+        "or complex for a real base, 30 % of them within 0.02 rad of +-i), perturbation of norm <= 0.05 re-normalised (matching overlap >= 0.9, others <= 0.06); items as list of str / tuple of int / ndarray of float; masses 1-250, row scales "
         "1e-3..1e3; matdyn files with 1-6 q-points, 3-60 modes, |component| <= 1 in QE's formats; non-trivial = complex case with "
         "n >= 10, non-identity permutation, nq >= 2; distinct by the drawn case")
 ASSUMPTIONS = [
@@ -52,7 +52,9 @@ def sort_cases(draw):
             "perm": perm, "eps": draw(st.sampled_from([0.0, 0.01, 0.05])),
             "containers": draw(st.sampled_from(["list", "tuple", "ndarray"])),
             # a real base whose second basis carries arbitrary (complex) phases: mixed dtypes
-            "phases": draw(st.sampled_from(["sign", "unit-complex"]))}
+            "phases": draw(st.sampled_from(["sign", "unit-complex"])),
+            # the items to be sorted: any sequence (frequencies are usually an ndarray)
+            "items": draw(st.sampled_from(["list-of-str", "list-of-str", "tuple-of-int", "ndarray-of-float"]))}
 
 
 def sort_oracle(ctx, c):
@@ -76,11 +78,20 @@ def sort_oracle(ctx, c):
         noise = noise / np.linalg.norm(noise, axis=1, keepdims=True) * c["eps"]
         target = target + noise
         target = target / np.linalg.norm(target, axis=1, keepdims=True)
-    items = ["item-%d" % i for i in range(n)]
+    kind = c.get("items", "list-of-str")
+    if kind == "tuple-of-int":
+        items = tuple(1000 + i for i in range(n))
+    elif kind == "ndarray-of-float":
+        items = np.array([100.5 + 3.0 * i for i in range(n)])
+    else:
+        items = ["item-%d" % i for i in range(n)]
     conv = {"list": lambda m: [list(r) for r in m], "tuple": lambda m: tuple(tuple(r) for r in m),
             "ndarray": lambda m: np.array(m)}[c["containers"]]
-    out = ctx.observe(evec_sort, list(items), conv(target), conv(base), _bucket="C20/sort/crash", _case=c)
-    if sorted(map(str, out)) != sorted(items):
+    passed = items.copy() if isinstance(items, np.ndarray) else (list(items) if isinstance(items, list) else items)
+    out = ctx.observe(evec_sort, passed, conv(target), conv(base), _bucket="C20/sort/crash", _case=c)
+    out = list(out)
+    items = list(items)
+    if sorted(map(str, out)) != sorted(map(str, items)):
         raise PropertyViolation("C20/sort/not-a-permutation", "result is not a permutation of the input: %r" % (out[:6],), c)
     for i, p in enumerate(perm):
         if out[p] != items[i]:
@@ -93,7 +104,7 @@ def sort_oracle(ctx, c):
                              (conv(target[:, :-1]), conv(base[:, :-1])), (conv(wide(target)), conv(wide(base))),
                              (conv(target[:, :1]), conv(base[:, :1]))):
             try:
-                evec_sort(list(items), bad_t, bad_b)
+                evec_sort(list(items), bad_t, bad_b)        # (plain list here: the shapes of the vector sets are what is wrong)
             except Exception:
                 continue
             raise PropertyViolation("C20/sort/mismatch-accepted", "dimension mismatch accepted", c)
@@ -105,7 +116,7 @@ def sub_sort(ctx):
         ident = c["perm"] == list(range(c["n"]))
         ctx.case(dict(c, perm=c["perm"][:8]), (not ident) and (not c["complex"] or c["n"] >= 10),
                  classes=["sort", "complex" if c["complex"] else "real", "eps=%g" % c["eps"], "perm-" + c.get("perm_kind", "random"),
-                          "container-" + c["containers"]] + (["real-base/complex-phases"] if (not c["complex"] and c.get("phases") == "unit-complex") else []), key=c)
+                          "container-" + c["containers"], "items-" + c.get("items", "list-of-str")] + (["real-base/complex-phases"] if (not c["complex"] and c.get("phases") == "unit-complex") else []), key=c)
 
     ctx.run_given(body, sort_cases(), max_examples=ctx.n(600, 20000))
 
